@@ -12,187 +12,213 @@ from ..report import Ctx
 from .common import REPR_MUT, REPR_XO
 
 LEVEL_TEXT = (
-    "Static rules on the five representations' crossover and mutate (found through the interfaces): (R1) linear "
-    "one-point crossover by slice algebra: each child is a concatenation of parental segments and every segment is "
-    "placed at the offset it was cut from (P[:k] + Q[k:]), the two children using complementary parents; (R2) "
-    "structured crossover copies, for every key, that key's gene list from one parent to one child and from the other "
-    "parent to the other child, under either value of the mask bit; (R3) point mutation stores at most one gene, at an "
-    "index drawn inside the existing range, into a copy of the parent's genes, and neither it nor any callee it hands "
-    "the offspring to changes a gene list's length; (R4) every attribute name used to steer tree variation "
-    "(hasattr / getattr strings, gengy_* reads) is defined somewhere in the package - a guard on a never-defined "
-    "attribute is constant and kills a branch; (R5) tree crossover never synthesises new material (no path with "
-    "donor material reaches create_node). Decides these shapes for all parents and seeds."
+    "Finite-model interpretation of the five representations' variation operators (found through the interfaces; helper "
+    "functions, genotype methods and closures inlined; nothing is executed): (R1) linear one-point crossover is interpreted "
+    "on two 4-gene parents with distinct symbolic genes for every cut 0..4: each child has the parents' length, every locus "
+    "holds one of the two parental genes of that locus, the children are complementary, each child is a prefix of one "
+    "parent followed by a suffix of the other, and some cut mixes both parents; (R2) structured crossover is interpreted "
+    "for the four mask values over two keys: under every key the two children hold the two parents' gene blocks, and "
+    "flipping a key's mask bit swaps them; (R3) point mutation is interpreted for every drawn position (and key, and an "
+    "empty gene list): at most the drawn gene differs, it holds the newly drawn value, gene-list lengths are kept, the "
+    "parent object is unchanged, the position is drawn from [0, length-1]; (R4) every attribute name used to steer tree "
+    "variation (hasattr / getattr strings, gengy_* reads) is defined somewhere in the package - a guard on a never-defined "
+    "attribute is constant and kills a branch; (R5) tree crossover (mutate with donor material, interpreted through "
+    "sa/treemodel.py) returns one of the donor's same-typed subtrees and never synthesises new material. Decides these "
+    "shapes for all parents and seeds within the model sizes."
 )
 
 MUTATE = "geneticengine.representations.tree.treebased:mutate"
 LENGTH_CHANGING = {"append", "extend", "insert", "pop", "remove", "clear", "popitem", "__delitem__"}
 
 
-def segments(e: ast.AST) -> Optional[list[tuple[str, Optional[str], Optional[str]]]]:
-    """a + b + ... of slices  ->  [(source text, lower text|None, upper text|None)]"""
-    if isinstance(e, ast.BinOp) and isinstance(e.op, ast.Add):
-        l, r = segments(e.left), segments(e.right)
-        return None if l is None or r is None else l + r
-    if isinstance(e, ast.Subscript) and isinstance(e.slice, ast.Slice) and e.slice.step is None:
-        lo = norm(e.slice.lower) if e.slice.lower is not None else None
-        hi = norm(e.slice.upper) if e.slice.upper is not None else None
-        return [(norm(e.value), lo, hi)]
+def _dna_kind(gcls) -> Optional[str]:
+    for b in [gcls]:
+        for st in b.node.body:
+            if isinstance(st, ast.AnnAssign) and isinstance(st.target, ast.Name) and st.target.id == "dna":
+                t = norm(st.annotation).strip("'\"")
+                return "list" if t.startswith(("list", "List")) else "dict" if t.startswith(("dict", "Dict")) else None
     return None
 
 
+def _genes(prefix: str, n: int, start: int = 1) -> list:
+    from ..modelinterp import Sym
+    return [Sym(f"{prefix}{i}") for i in range(start, start + n)]
+
+
+def _mk(gcls, dna, rnd: str):
+    from ..modelinterp import Obj, Sym, _dataclass_fields
+    return Obj(gcls.name, {"dna": dna, "random": Sym(rnd)}, gcls.fullname)
+
+
 def rule_r1_r2(ctx: Ctx) -> None:
+    """Model check of every genotype-level crossover (sa/rules/c06model.py): linear genomes for every cut 0..4 of two
+    4-gene parents, structured genomes for the four mask values over two keys."""
+    from ..modelinterp import Budget, Obj, Sym, UNKNOWN
+    from .c06model import Script, genotype_class, run_operator
     prog = ctx.prog
     n1 = n2 = 0
     for f in sorted(prog.implementations(REPR_XO, "crossover"), key=lambda x: x.fullname):
-        p1, p2 = [p for p in f.params if p.startswith("parent")][:2] if len([p for p in f.params if p.startswith("parent")]) >= 2 else (None, None)
-        if p1 is None or (f.cls is not None and "Tree" in f.cls.name):
-            continue  # tree crossover is R4/R5
-        # children: names passed to the genotype constructor in the returned tuple
-        rets = [r for r in walk_local(f.node) if isinstance(r, ast.Return) and isinstance(r.value, ast.Tuple)]
-        kids = []
-        for r in rets:
-            for el in r.value.elts:
-                if isinstance(el, ast.Call):
-                    for a in list(el.args) + [k.value for k in el.keywords]:
-                        if isinstance(a, ast.Name) and a.id not in (p1, p2) and not a.id.startswith("random"):
-                            kids.append(a.id)
-        lin = [a for a in walk_local(f.node) if isinstance(a, ast.Assign) and isinstance(a.targets[0], ast.Name) and a.targets[0].id in kids
-               and segments(a.value) is not None]
-        if lin:
-            srcs = []
-            for a in lin:
-                n1 += 1
-                segs = segments(a.value)
-                ok, why = True, ""
-                offset: Optional[str] = None  # text of current offset (None = 0)
-                for (src, lo, hi) in segs:
-                    if (lo or None) != offset:
-                        ok = False
-                        why = f"the segment {src}[{lo or ''}:{hi or ''}] is placed at offset {offset or 0}, not at the locus it was cut from"
-                        break
-                    offset = hi
-                if ok and offset is not None:
-                    ok, why = False, "the child does not extend to the end of a parent"
-                if ok and not all(s.endswith(".dna") and s.split(".")[0] in (p1, p2) for s, _, _ in segs):
-                    ok, why = False, "a segment does not come from a parent's genes"
-                srcs.append(tuple(s.split(".")[0] for s, _, _ in segs))
-                ctx.ob("C06.R1", f, a, f"child {a.targets[0].id} = parental segments at their own loci", ok,
-                       "" if ok else f"'{norm(a)[:80]}': {why}: genes end up at other positions than in the parent they came from")
-            if len(srcs) == 2:
-                comp = srcs[0] == tuple(reversed(srcs[1])) and len(set(srcs[0])) == 2
-                ctx.ob("C06.R1", f, lin[1], "the two children take complementary parents", comp,
-                       "" if comp else f"children are built from {srcs}: not one child per parent ordering")
-            continue
-        # ---- structured: per-key stores
-        stores = [a for a in walk_local(f.node) if isinstance(a, ast.Assign) and isinstance(a.targets[0], ast.Subscript)
-                  and isinstance(a.targets[0].value, ast.Name) and a.targets[0].value.id in kids]
-        if not stores:
-            ctx.ob("C06.R2", f, f.node, "crossover form", None, "neither slice concatenation nor per-key stores found")
-            continue
-        by_branch: dict[tuple, dict[str, str]] = {}
-        for a in stores:
-            n2 += 1
-            key = norm(a.targets[0].slice)
-            # source: copy(parentX.dna[key']) / parentX.dna.get(key', [])
-            src_parent = src_key = None
-            for x in ast.walk(a.value):
-                if isinstance(x, ast.Subscript) and isinstance(x.value, ast.Attribute) and x.value.attr == "dna" and isinstance(x.value.value, ast.Name):
-                    src_parent, src_key = x.value.value.id, norm(x.slice)
-                if isinstance(x, ast.Call) and call_name(x) == "get" and isinstance(x.func.value, ast.Attribute) and x.func.value.attr == "dna" \
-                        and isinstance(x.func.value.value, ast.Name) and x.args:
-                    src_parent, src_key = x.func.value.value.id, norm(x.args[0])
-            ok = src_parent in (p1, p2) and src_key == key
-            ctx.ob("C06.R2", f, a, f"{a.targets[0].value.id}[{key}] copies the same key from a parent", ok,
-                   "" if ok else f"'{norm(a)[:70]}' takes key {src_key} of {src_parent}: the gene block lands under another key than in its parent")
-            br = tuple((norm(t), pol) for t, pol in guards(a, stop=f.node))
-            by_branch.setdefault(br, {})[a.targets[0].value.id] = src_parent or "?"
-        for br, m in by_branch.items():
-            comp = len(m) == 2 and set(m.values()) == {p1, p2}
-            ctx.ob("C06.R2", f, f.node, f"under [{', '.join(t + '=' + str(p) for t, p in br) or 'always'}] the children take different parents", comp,
-                   "" if comp else f"on this branch the children are assigned {m}: parental blocks are duplicated or lost")
-        if len(by_branch) == 2:
-            vals = list(by_branch.values())
-            sw = all(vals[0].get(k) != vals[1].get(k) for k in vals[0])
-            ctx.ob("C06.R2", f, f.node, "the two mask values swap the parents", sw,
-                   "" if sw else "both mask values assign the same parents: the mask has no effect")
-    ctx.floor("C06.R1", n1, 4, "linear crossover children")
-    ctx.floor("C06.R2", n2, 8, "structured crossover stores")
+        gcls = genotype_class(ctx, f)
+        kind = _dna_kind(gcls) if gcls is not None else None
+        ps = [p for p in f.params if p not in ("self", "kwargs") and p != f.params[1]][:2]
+        if gcls is None or kind is None or len(ps) < 2:
+            continue   # tree crossover: R4/R5
+        cname = f.cls.name if f.cls else f.name
+        if kind == "list":
+            A, B = _genes("a", 4), _genes("b", 4)
+            bad = und = None
+            mixes = 0
+            for cut in range(0, 5):
+                try:
+                    res, envs = run_operator(ctx, f, Script([cut], []), {"self.gene_length": 4},
+                                             {ps[0]: _mk(gcls, list(A), "r1"), ps[1]: _mk(gcls, list(B), "r2")})
+                except Budget:
+                    und = "too many interpretations"
+                    continue
+                for (trace, rv, notes) in res:
+                    if any(e.kind == "raise" for e in trace):
+                        continue
+                    if not (isinstance(rv, list) and len(rv) == 2 and all(isinstance(c, Obj) and isinstance(c.fields.get("dna"), list) for c in rv)):
+                        und = f"the children are not followed (cut={cut}: {rv!r})"
+                        continue
+                    c1, c2 = rv[0].fields["dna"], rv[1].fields["dna"]
+                    n1 += 1
+                    pat = []
+                    for child in (c1, c2):
+                        if len(child) != 4:
+                            bad = bad or (f"cut={cut}: a child has {len(child)} genes, the parents have 4", cut)
+                            pat.append(None)
+                            continue
+                        src = "".join("A" if g == A[i] else "B" if g == B[i] else "?" for i, g in enumerate(child))
+                        pat.append(src)
+                        if "?" in src:
+                            j = src.index("?")
+                            bad = bad or (f"cut={cut}: locus {j} of a child holds {child[j]!r}, which is neither parent's gene at that locus "
+                                          f"({A[j]!r} / {B[j]!r}): genes end up at other positions than in the parent they came from", cut)
+                        elif "AB" in src and "BA" in src:
+                            bad = bad or (f"cut={cut}: a child takes {src} from the parents: not a one-point recombination", cut)
+                    if None not in pat and "?" not in "".join(pat):
+                        if any(x == y for x, y in zip(pat[0], pat[1])):
+                            bad = bad or (f"cut={cut}: the children take {pat[0]} and {pat[1]}: not complementary (a parental gene is duplicated "
+                                          f"and the other lost)", cut)
+                        if "A" in pat[0] and "B" in pat[0]:
+                            mixes += 1
+            if not bad and not und and mixes == 0:
+                bad = ("no cut position makes a child contain genes of both parents: nothing is recombined", None)
+            ctx.ob("C06.R1", f, f.node, f"{cname}.crossover: each child is parental genes at their own loci, one-point, complementary (cuts 0..4)",
+                   False if bad else (None if und else True), bad[0] if bad else (und or ""), witness={"cut": bad[1]} if bad else {"cuts": 5})
+        else:
+            P1 = {"K1": _genes("a", 2), "K2": _genes("a", 1, 3)}
+            P2 = {"K1": _genes("b", 2), "K2": _genes("b", 1, 3)}
+            bad = und = None
+            outcomes = {}
+            for mask in ((True, True), (True, False), (False, True), (False, False)):
+                try:
+                    res, envs = run_operator(ctx, f, Script([], list(mask)), {},
+                                             {ps[0]: _mk(gcls, {k: list(v) for k, v in P1.items()}, "r1"),
+                                              ps[1]: _mk(gcls, {k: list(v) for k, v in P2.items()}, "r2")})
+                except Budget:
+                    und = "too many interpretations"
+                    continue
+                for (trace, rv, notes) in res:
+                    if any(e.kind == "raise" for e in trace):
+                        continue
+                    if not (isinstance(rv, list) and len(rv) == 2 and all(isinstance(c, Obj) and isinstance(c.fields.get("dna"), dict) for c in rv)):
+                        und = f"the children are not followed (mask={mask}: {rv!r})"
+                        continue
+                    c1, c2 = rv[0].fields["dna"], rv[1].fields["dna"]
+                    n2 += 1
+                    for k in ("K1", "K2"):
+                        g1, g2 = c1.get(k), c2.get(k)
+                        if not ((g1 == P1[k] and g2 == P2[k]) or (g1 == P2[k] and g2 == P1[k])):
+                            bad = bad or (f"mask={mask}: under key {k} the children hold {g1!r} and {g2!r}; the parents hold {P1[k]!r} and {P2[k]!r}: "
+                                          f"a gene block is duplicated, lost or lands under another key", mask)
+                    if set(c1) != {"K1", "K2"} or set(c2) != {"K1", "K2"}:
+                        bad = bad or (f"mask={mask}: the children have keys {sorted(c1)} / {sorted(c2)}, the parents K1, K2", mask)
+                    outcomes[mask] = tuple("1" if c1.get(k) == P1[k] else "2" for k in ("K1", "K2"))
+            if not bad and not und and len(outcomes) == 4:
+                if outcomes[(True, True)][0] == outcomes[(False, True)][0] or outcomes[(True, True)][1] == outcomes[(True, False)][1]:
+                    bad = (f"flipping a key's mask bit does not swap the parents for that key ({outcomes}): the mask has no effect", None)
+            ctx.ob("C06.R2", f, f.node, f"{cname}.crossover: per key, one child gets each parent's gene block; the mask bit swaps them",
+                   False if bad else (None if und else True), bad[0] if bad else (und or ""), witness={"mask": list(bad[1])} if bad and bad[1] else {"masks": 4})
+    ctx.floor("C06.R1", n1, 8, "interpreted linear crossover scenarios")
+    ctx.floor("C06.R2", n2, 8, "interpreted structured crossover scenarios")
 
 
 def rule_r3(ctx: Ctx) -> None:
-    prog, res = ctx.prog, ctx.res
-    ma = MutationAnalysis(prog, res, depth=4)
+    """Model check of every genotype-level mutate: for every drawn position (and key) the offspring differs from the parent in
+    at most that one gene, which holds the newly drawn value; gene lists keep their lengths; the parent is left as it was;
+    the position is drawn from [0, length - 1]."""
+    from ..modelinterp import Budget, Obj, Sym, UNKNOWN
+    from .c06model import Script, genotype_class, run_operator
+    prog = ctx.prog
     n = 0
     for f in sorted(prog.implementations(REPR_MUT, "mutate"), key=lambda x: x.fullname):
-        if "genotype" not in f.params or (f.cls and "Tree" in f.cls.name):
+        gcls = genotype_class(ctx, f)
+        kind = _dna_kind(gcls) if gcls is not None else None
+        ps = [p for p in f.params if p not in ("self", "kwargs") and p != f.params[1]][:1]
+        if gcls is None or kind is None or not ps:
             continue
-        n += 1
-        # offspring containers: locals bound to a copy of genotype.dna; offspring objects: constructed genotypes
-        kids = set()
-        for a in walk_local(f.node):
-            if isinstance(a, ast.Assign) and isinstance(a.targets[0], ast.Name):
-                if any(isinstance(x, ast.Attribute) and x.attr == "dna" for x in ast.walk(a.value)) and not isinstance(a.value, ast.Attribute):
-                    kids.add(a.targets[0].id)
-                elif isinstance(a.value, ast.Call) and res.resolve(f, a.value).kind == "ctor":
-                    kids.add(a.targets[0].id)
-        if not kids:
-            ctx.ob("C06.R3", f, f.node, "offspring gene container", None, "no copy of the parent's genes found")
-            continue
-        muts = ma.analyse(f, {}, sticky=set(kids))
-        stores = [m for m in muts if m.how == "item store"]
-        other = [m for m in muts if m.how != "item store"]
-        for m in other:
-            ctx.ob("C06.R3", f, m.node, f"length-preserving: {m.how} on offspring genes"[:110], False,
-                   f"'{norm(m.node)[:70]}' ({m.how}) changes the shape of the offspring's genes: mutation must replace at most one gene "
-                   f"and keep every gene list's length" + (f" [via {' -> '.join(m.chain)}]" if m.chain else ""))
-        # at most one gene store per path, not a slice
-        bad_slice = [m for m in stores if any(isinstance(t, ast.Subscript) and isinstance(t.slice, ast.Slice)
-                                              for t in (m.node.targets if isinstance(m.node, ast.Assign) else []))]
-        worst = 0
-        store_nodes = {id(m.node) for m in stores}
-        for pth in paths(f.node.body, unroll_loops=True):
-            k = sum(1 for st in stmts_on(pth) if id(st) in store_nodes)
-            worst = max(worst, k)
-        in_loop = any(any(isinstance(a, (ast.For, ast.While)) for a in ancestors(m.node)) for m in stores)
-        ok = worst <= 1 and not bad_slice and not in_loop
-        ctx.ob("C06.R3", f, stores[0].node if stores else f.node, "at most one gene is replaced on any path", ok,
-               "" if ok else f"up to {worst} gene stores on one path{' (in a loop)' if in_loop else ''}{' (slice assignment)' if bad_slice else ''}: "
-                             f"more than one gene can change")
-        # the index is drawn inside the existing range
-        for m in stores:
-            tgt = m.node.targets[0] if isinstance(m.node, ast.Assign) else None
-            idx = tgt.slice if isinstance(tgt, ast.Subscript) else None
-            okr = False
-            why = "the replaced position is not a draw from [0, length-1]"
-            if isinstance(idx, ast.Name):
-                d = [a for a in walk_local(f.node) if isinstance(a, ast.Assign) and isinstance(a.targets[0], ast.Name) and a.targets[0].id == idx.id]
-                if d and isinstance(d[-1].value, ast.Call) and call_name(d[-1].value) == "randint" and len(d[-1].value.args) == 2:
-                    lo, hi = d[-1].value.args
-                    # abstract evaluation: 0 <= lo and hi <= len(container) - 1, with 'if container:' guards giving len >= 1
-                    from ..absint import Env, Facts, Lin, entails_ge0, evaluate
-                    env = Env(Facts())
-                    lens = [c for c in ast.walk(hi) if isinstance(c, ast.Call) and call_name(c) == "len" and c.args]
-                    cont = norm(lens[0].args[0]) if lens else None
-                    okr = False
-                    if cont is not None:
-                        L = env.symbol("L")
-                        env.facts.add_ge(L, Lin.c(0))
-                        for t, pol in guards(d[-1], stop=f.node):
-                            if pol and norm(t) == cont:
-                                env.facts.add_ge(L, Lin.c(1))
-                        env.hooks.append(lambda e_, c_: L if (call_name(c_) == "len" and c_.args and norm(c_.args[0]) == cont) else None)
-                        if cont.startswith("self.gene_length"):
-                            pass
-                        lo_v, hi_v = evaluate(env, lo), evaluate(env, hi)
-                        if isinstance(lo_v, Lin) and isinstance(hi_v, Lin):
-                            okr = entails_ge0(env.facts, lo_v) and entails_ge0(env.facts, L - Lin.c(1) - hi_v)
-                    elif isinstance(lo, ast.Constant) and lo.value == 0 and isinstance(hi, ast.BinOp) and isinstance(hi.op, ast.Sub) \
-                            and isinstance(hi.right, ast.Constant) and hi.right.value == 1:
-                        okr = True   # randint(0, <length attribute> - 1)
-                    if not okr:
-                        why = f"the index is drawn from [{norm(lo)}, {norm(hi)}], which is not provably inside [0, length-1]"
-            ctx.ob("C06.R3", f, m.node, "the replaced gene position lies inside the existing genes", okr, "" if okr else why)
-    ctx.floor("C06.R3", n, 4, "genotype mutate implementations")
+        cname = f.cls.name if f.cls else f.name
+        scenarios = []
+        if kind == "list":
+            for j in range(4):
+                scenarios.append((_genes("a", 4), [j], 0))
+        else:
+            for ci in (0, 1):
+                for j in range(2 if ci == 0 else 1):
+                    scenarios.append(({"K1": _genes("a", 2), "K2": _genes("a", 1, 3)}, [j], ci))
+            scenarios.append(({"K1": [], "K2": _genes("a", 1, 3)}, [0], 0))   # an empty gene list must stay empty
+        bad = und = None
+        changed_any = False
+        for dna0, ints, ci in scenarios:
+            mk = (lambda: list(dna0)) if kind == "list" else (lambda: {k: list(v) for k, v in dna0.items()})
+            script = Script(ints, [], ci)
+            try:
+                res, envs = run_operator(ctx, f, script, {"self.gene_length": 4}, {ps[0]: _mk(gcls, mk(), "r1")})
+            except Budget:
+                und = "too many interpretations"
+                continue
+            for (trace, rv, notes), env_after in zip(res, envs):
+                if any(e.kind == "raise" for e in trace):
+                    continue
+                if not (isinstance(rv, Obj) and isinstance(rv.fields.get("dna"), type(dna0))):
+                    und = f"the offspring is not followed ({rv!r})"
+                    continue
+                n += 1
+                child = rv.fields["dna"]
+                parent_after = env_after[ps[0]].fields["dna"] if isinstance(env_after.get(ps[0]), Obj) else None
+                if parent_after != mk():
+                    bad = bad or (f"the parent's genes are {parent_after!r} after mutate (they were {mk()!r}): the parent is modified", None)
+                flat0 = [("", i, g) for i, g in enumerate(dna0)] if kind == "list" else [(k, i, g) for k, v in dna0.items() for i, g in enumerate(v)]
+                shape0 = len(dna0) if kind == "list" else {k: len(v) for k, v in dna0.items()}
+                shape1 = len(child) if kind == "list" else {k: len(v) if isinstance(v, list) else None for k, v in child.items()}
+                if shape0 != shape1:
+                    bad = bad or (f"the offspring's gene lists have shape {shape1}, the parent's {shape0}: point mutation changes a length "
+                                  f"(position draw {ints}, key choice {ci})", None)
+                    continue
+                diffs = [(k, i) for (k, i, g) in flat0 if (child[i] if kind == "list" else child[k][i]) != g]
+                if len(diffs) > 1:
+                    bad = bad or (f"{len(diffs)} genes differ from the parent after one point mutation ({diffs})", None)
+                for (k, i) in diffs:
+                    changed_any = True
+                    v = child[i] if kind == "list" else child[k][i]
+                    if v != Sym("newgene"):
+                        bad = bad or (f"the changed gene holds {v!r}, not the newly drawn value", None)
+                for lo, hi, v in script.draw_ranges:
+                    L = len(dna0) if kind == "list" else None
+                    if kind == "dict":
+                        key = list(dna0.keys())[ci % len(dna0)]
+                        L = len(dna0[key])
+                    if not (isinstance(lo, int) and isinstance(hi, int)):
+                        und = und or f"the position's range [{lo!r}, {hi!r}] is not followed"
+                    elif lo < 0 or hi > L - 1:
+                        bad = bad or (f"the position is drawn from [{lo}, {hi}] for a gene list of length {L}: outside [0, length - 1]", None)
+        if not bad and not und and not changed_any:
+            bad = ("no scenario changes a gene: mutate returns the parent's genes unchanged", None)
+        ctx.ob("C06.R3", f, f.node, f"{cname}.mutate: at most the one drawn gene changes, to the new value, in a copy; lengths kept; position in range",
+               False if bad else (None if und else True), bad[0] if bad else (und or ""))
+    ctx.floor("C06.R3", n, 12, "interpreted point-mutation scenarios")
 
 
 def rule_r4(ctx: Ctx) -> None:
@@ -232,23 +258,66 @@ def rule_r4(ctx: Ctx) -> None:
 
 
 def rule_r5(ctx: Ctx) -> None:
+    """Tree crossover = mutate(..., source_material=[donor]).  mutate is interpreted (sa/treemodel.py) on a synthesised node
+    selected for replacement with donor material present: when the donor offers same-typed subtrees the result is one of
+    them and nothing is synthesised; when it offers none, nothing may be synthesised either (the child would receive fresh
+    material instead of parental material)."""
+    from ..modelinterp import Budget, Obj, Sym, UNKNOWN, Effect, TypeV
+    from ..treemodel import TreeModel
     mu = ctx.fn(MUTATE)
     sm = "source_material"
     if sm not in mu.params:
         raise AnalysisError("C06.R5: mutate has no source_material parameter")
+    NODE = TypeV("class", "N")
     n = 0
-    for pth in paths(mu.node.body, unroll_loops=False):
-        has_material = any(pol and sm in {x.id for x in ast.walk(t) if isinstance(x, ast.Name)} and not (isinstance(t, ast.UnaryOp))
-                           for t, pol in conds_on(pth))
-        if not has_material:
+    for label, options in (("the donor offers same-typed subtrees", [Sym("donor-subtree")]), ("the donor offers no same-typed subtree", None),
+                           ("the donor offers an empty list of subtrees", [])):
+        def extra_find(it, call, env, args, kwargs, options=options):
+            from ..modelinterp import _NONE
+            return _NONE if options is None else list(options)
+
+        def extra_choose(it, call, env, args, kwargs):
+            it.trace.append(Effect("call", "choose_options", tuple(list(a) if isinstance(a, list) else a for a in args), {}, node=call, fn=it.fn_stack[-1]))
+            opts = args[0] if args else None
+            return opts[0] if isinstance(opts, list) and opts else Sym("chosen")
+
+        model = TreeModel(ctx, fields={NODE: [("f1", TypeV("class", "T1"))]}, ints={"mutate:random_int": 0},
+                          hasattrs={"node": {}, "__typeof__": {"node": NODE}},
+                          extra_calls={"find_in_tree": extra_find, "choose_options": extra_choose,
+                                       "has_annotated_mutation": lambda *a, **k: False})
+        it = model.interp()
+        p = mu.params
+        env = {p[0]: Obj("GlobalSynthesisContext", {"random": Sym("random"), "grammar": Sym("grammar"), "decider": Sym("decider")}),
+               p[1]: Sym("node"), p[2]: NODE, sm: [Sym("donor")],
+               f"{p[1]}.gengy_synthesis_context": Obj("LocalSynthesisContext", {"depth": 1, "nodes": 1, "expansions": 1, "dependent_values": {}}),
+               f"{p[1]}.gengy_weighted_nodes": 3, f"{p[1]}.gengy_init_values": [Sym("v1")]}
+        if len(p) > 3 and p[3] != sm:
+            env[p[3]] = {}
+        try:
+            runs = it.run(mu, env)
+        except Budget:
+            ctx.ob("C06.R5", mu, mu.node, f"tree crossover when {label}", None, "too many interpretations")
             continue
-        n += 1
-        synth = [c for st in stmts_on(pth) for c in ast.walk(st) if isinstance(c, ast.Call) and call_name(c) == "create_node"]
-        ctx.ob("C06.R5", mu, synth[0] if synth else mu.node, "with donor material present, no new subtree is synthesised", not synth,
-               "" if not synth else "a path on which donor material was supplied still ends in create_node(...): when no same-typed donor "
-                                    "subtree is found the 'crossover' child receives freshly synthesised material instead of parental "
-                                    "material")
-    ctx.floor("C06.R5", n, 1, "paths of mutate with donor material")
+        verdict: Optional[bool] = True
+        why = ""
+        node = mu.node
+        for trace, rv, notes in runs:
+            if any(e.kind == "raise" for e in trace):
+                continue
+            n += 1
+            synth = [e for e in trace if e.kind == "call" and e.name == "create_node"]
+            if synth:
+                verdict = False
+                node = synth[0].node
+                why = ("a path on which donor material was supplied still ends in create_node(...): when no same-typed donor subtree is found "
+                       "the 'crossover' child receives freshly synthesised material instead of parental material" if not options else
+                       "although the donor offers same-typed subtrees, new material is synthesised")
+                break
+            if options and rv != options[0]:
+                verdict = None if rv is UNKNOWN else False
+                why = f"the child receives {rv!r}, not one of the donor's same-typed subtrees"
+        ctx.ob("C06.R5", mu, node, f"tree crossover when {label}: the child receives parental material, nothing is synthesised", verdict, why)
+    ctx.floor("C06.R5", n, 3, "interpreted tree-crossover scenarios")
 
 
 def run(ctx: Ctx) -> None:
